@@ -51,7 +51,7 @@ def generate(rng, tier):
             pres, enc, pair = rng.choice(mods)
             depth = rng.range(1, 6)
             top1 = 0x7fff0000
-            top2 = rng.choice([0x10000, 0x7fff0000 + 0x1000 * rng.range(1, 100), (1 << 62) + 0x5550, (1 << 64) - 0x100000])
+            top2 = rng.choice([0x1000000, 0x7fff0000 + 0x1000 * rng.range(1, 100), (1 << 62) + 0x5550, (1 << 64) - 0x100000])
             r1 = clone_rng(rng)
             sc1 = truth.make_scenario(r1, arch, funcs, pair[0][1], top1, depth)
             r2 = clone_rng(rng)
@@ -167,7 +167,7 @@ def judge(script, impl):
             t = item.split()
             if t[0] == "ok" and t[1] in ("ip", "ra"):
                 fpv = int(t[4][3:], 16)
-                if 0x7fff0000 - 0x100000 <= fpv <= 0x7fff0000 + 0x1000:      # a pointer into the (original) stack moves with it
+                if 0x7fff0000 - 0x1000000 <= fpv <= 0x7fff0000 + 0x1000:      # a pointer into the (original) stack moves with it
                     fpv = (fpv + ds) & M64
                 av = int(t[2], 16)
                 code = m.get("code")
